@@ -90,12 +90,17 @@ fn build_doc(rng: &mut Rng, nsteps: usize) -> (Doc, Vec<SendPlan>) {
             match rng.below(10) {
                 0..=5 => {
                     let (ms, text) = spelled(rng);
-                    let event = format!("d.{}.{}", k, a);
+                    let mut event = format!("d.{}.{}", k, a);
                     let (id, idlocation) = match rng.below(5) {
                         0 | 1 => (Some(rng.pick(&ids[..]).to_string()), None),
                         2 => (None, Some("sid".to_string())),
                         _ => (None, None),
                     };
+                    // sends without id that carry the same event name (a retry / poll pattern): several of them
+                    // are pending at once, each is an event of its own (told apart by their data)
+                    if id.is_none() && idlocation.is_none() && rng.chance(1, 2) {
+                        event = "d.anon".to_string();
+                    }
                     plans.push(SendPlan { event: event.clone(), ms, id: id.clone() });
                     // a third of the sends address the session through a variable that is re-pointed at a
                     // session that does not exist right after the <send>: target and data are those of the
